@@ -50,3 +50,23 @@ Definition rep_of (k : repl) (w : list Z) (c : caps) (z : zip) : list Z :=
 
 (* re.compile("^ {0," + str(n) + "}", re.M): the dynamic indentation trim of fenced code *)
 Definition indent_trim (n : nat) : rx := RSeq (RAt AtBeginningLine) (RRep true 0 (Some n) (RLit 32%Z)).
+
+(* Pattern.split(s) for a pattern without capture groups, as CPython's pattern_split runs it: leftmost matches from
+   left to right (after an empty match the next one must advance); the pieces are the texts between the matches,
+   the one after the last match included even when empty *)
+Fixpoint split_loop (U : uni) (r : rx) (fuel : nat) (must : bool) (z : zip) (cur : list Z) : list (list Z) :=
+  match fuel with
+  | O => [rev cur ++ z_rest z]
+  | S f =>
+    match match_zip U r must z with
+    | Some (z', _) => rev cur :: split_loop U r f (Nat.eqb (z_idx z') (z_idx z)) z' []
+    | None =>
+      match zstep z with
+      | None => [rev cur]
+      | Some (ch, z1) => split_loop U r f false z1 (ch :: cur)
+      end
+    end
+  end.
+
+Definition re_split (U : uni) (r : rx) (s : list Z) : list (list Z) :=
+  split_loop U r (2 * length s + 2) false (zip_at s 0 (length s)) [].
